@@ -386,14 +386,8 @@ def rhophi_eta_xy_eta(lib, rho1, phi1, eta1, x2, y2, eta2):
 
 
 def rhophi_eta_rhophi_z(lib, rho1, phi1, eta1, rho2, phi2, z2):
-    return rhophi_theta_rhophi_theta(
-        lib,
-        rho1,
-        phi1,
-        theta.rhophi_eta(lib, rho1, phi1, eta1),
-        rho2,
-        phi2,
-        theta.rhophi_z(lib, rho2, phi2, z2),
+    return rhophi_z_rhophi_z(
+        lib, rho1, phi1, z.rhophi_eta(lib, rho1, phi1, eta1), rho2, phi2, z2
     )
 
 
